@@ -31,6 +31,28 @@ Theorem C09_optional_placeholder :
   forall prog a ls, key_ok prog -> key_ok (a_key a) -> a_key a = prog -> validate_optional prog (Some a) ls = Ok false.
 Proof. exact optional_placeholder. Qed.
 
+(* containers forward the checks to EVERY element: Vec<T> with its four argument forms *)
+Theorem C09_vec_accepts_iff_every_account :
+  forall accs ls form k, Forall acct_ok accs -> Forall layer_wf ls ->
+    (validate_vec accs ls form k = Ok tt <-> args_fit form k (zlen accs) /\ Forall (fun a => Forall (layer_ok a) ls) accs).
+Proof. exact validate_vec_iff. Qed.
+
+Theorem C09_vec_no_account_skipped :
+  forall accs ls form k a, Forall acct_ok accs -> Forall layer_wf ls -> In a accs -> ~ Forall (layer_ok a) ls ->
+    validate_vec accs ls form k <> Ok tt.
+Proof. exact validate_vec_no_account_skipped. Qed.
+
+Example C09_vec_nonvacuous :
+  let k := repeat 5 32 in
+  let good := mkAcct k (repeat 0 32) true true [] true in
+  let bad := mkAcct k (repeat 0 32) false true [] true in
+  Forall acct_ok [good; good; bad] /\
+  validate_vec [good; good] [LSigner; LMut] 2 2 = Ok tt /\ validate_vec [good; good] [LSigner; LMut] 2 5 = Ok tt /\
+  validate_vec [good; good; bad] [LSigner] 2 2 = Err PE_INVALID_ARGUMENT /\
+  validate_vec [good; good; bad] [LSigner] 2 3 = Err EC_EXPECTED_SIGNER /\
+  validate_vec [good; good] [LSigner] 3 3 = Err PE_INVALID_ARGUMENT.
+Proof. vm_compute. repeat split; try reflexivity; repeat constructor. Qed.
+
 Example C09_nonvacuous :
   let k := repeat 5 32 in
   let a := mkAcct k (repeat 0 32) true true [] true in
